@@ -1,6 +1,7 @@
 package rules
 
 import (
+	"strings"
 	"go/types"
 
 	"golang.org/x/tools/go/ssa"
@@ -195,4 +196,71 @@ func c24(r *core.Run) {
 		"runtime.(Storage).commit": "guarded by the commitContractUpdates flag",
 	})
 	r.Floor("R5.contract", 2)
+
+	// R7 a rejected register access fails the execution: the ledger methods of runtime.ExternalInterface keep the wrapper shape
+	// (shared with C28.R1) — a SetValue error that is not propagated lets a transaction report success with writes missing
+	externalWrapperRule(r, "R7.ledgerwrap", "SetValue", "GetValue", "ValueExists", "AllocateSlabIndex")
+	r.Floor("R7.ledgerwrap", 4)
+
+	// R8 an executor runs its program once: the unguarded execute() of the transaction, script and contract-function executors
+	// is called only from the function literal handed to sync.Once.Do in Execute() (Result() and repeated calls go through the
+	// guard) — a second run works on a Storage that still holds the first run's uncommitted changes and commits them
+	for _, recv := range []string{"transactionExecutor", "scriptExecutor", "contractFunctionExecutor"} {
+		m := w.FuncObj("runtime", recv, "execute")
+		if m == nil {
+			r.Undecided("R8.once", "runtime.("+recv+").execute", "does not resolve")
+			continue
+		}
+		target := w.Prog.FuncValue(m)
+		ok, n := true, 0
+		var where []string
+		for _, fn := range w.SrcFuncsIn("runtime") {
+			if fn.Parent() != nil {
+				continue
+			}
+			var all []*ssa.Function
+			var collect func(f *ssa.Function)
+			collect = func(f *ssa.Function) {
+				all = append(all, f)
+				for _, a := range f.AnonFuncs {
+					collect(a)
+				}
+			}
+			collect(fn)
+			for _, f := range all {
+				for _, c := range core.Calls(f, false) {
+					if core.StaticFn(c) != target {
+						continue
+					}
+					n++
+					// the caller must be a function literal that is the argument of (*sync.Once).Do
+					guarded := false
+					if f.Parent() != nil {
+						core.Instrs(f.Parent(), false, func(in ssa.Instruction) {
+							cc, isCall := in.(ssa.CallInstruction)
+							if !isCall {
+								return
+							}
+							o := core.Callee(cc)
+							if o == nil || o.Name() != "Do" || o.Pkg() == nil || o.Pkg().Path() != "sync" {
+								return
+							}
+							for _, a := range cc.Common().Args {
+								if mc, isMC := a.(*ssa.MakeClosure); isMC && mc.Fn == ssa.Value(f) {
+									guarded = true
+								}
+							}
+						})
+					}
+					if !guarded {
+						ok = false
+						where = append(where, core.SSAKey(fn))
+					}
+				}
+			}
+		}
+		r.Check(ok && n > 0, "R8.once", "runtime.("+recv+").execute is called only under sync.Once", target.Pos(), itoa(n)+" call(s), all inside Once.Do",
+			"the unguarded execute() is called outside the sync.Once guard (from "+strings.Join(where, ", ")+"): calling Result() after Execute() runs the program a second time on the same storage and commits writes of a failed first run")
+	}
+	r.Floor("R8.once", 3)
 }
